@@ -120,8 +120,8 @@ def make_instance(rng, template, tmpdir, tag):
         else:
             RG = cf.make('S', 'a', [('S', (('T', 'a'),))], 'S')
             word = 'a'
-        eps = rng.choice(['ε', '_'])
-        s['inputfile'] = write('g.cfg', txt.render_simple_cfg(RG, eps, rng, {'comments': rng.random() < 0.3}))
+        eps = rng.choice(['ε', '_', 'e'])
+        s['inputfile'] = write('g.cfg', txt.render_simple_cfg(RG, eps, rng, {'comments': rng.random() < 0.3, 'declare_epsilon': eps == 'e'}))
         s['word'] = word
         refs.update(grammar=RG, word=word)
     elif template == 'cfg-for-language':
@@ -132,13 +132,15 @@ def make_instance(rng, template, tmpdir, tag):
         acc = rng.sample(sorted(L), min(len(L), 6))
         rej = [w for w in allw if w not in L]
         rej = rng.sample(rej, min(len(rej), 6))
-        s['inputfile'] = write('g.cfg', txt.render_simple_cfg(RG, rng.choice(['ε', '_']), rng, {'comments': rng.random() < 0.3}))
+        eps = rng.choice(['ε', '_', 'e'])
+        s['inputfile'] = write('g.cfg', txt.render_simple_cfg(RG, eps, rng, {'comments': rng.random() < 0.3, 'declare_epsilon': eps == 'e'}))
         s['accepted'] = ' '.join(w if w else rng.choice(['ε', '_']) for w in acc)
         s['rejected'] = ' '.join(w if w else 'ε' for w in rej)
         refs.update(grammar=RG, accepted=acc, rejected=rej)
     elif template == 'cfg-to-chomsky':
         RG = nondegenerate_grammar(rng)
-        s['inputfile'] = write('g.cfg', txt.render_simple_cfg(RG, rng.choice(['ε', '_']), rng, {'comments': rng.random() < 0.3}))
+        eps = rng.choice(['ε', '_', 'e'])
+        s['inputfile'] = write('g.cfg', txt.render_simple_cfg(RG, eps, rng, {'comments': rng.random() < 0.3, 'declare_epsilon': eps == 'e'}))
         s['start_variable'] = 'T'
         s['length'] = str(rng.choice([3, 4, 5]))
         refs.update(grammar=RG, start_variable='T', length=int(s['length']))
